@@ -1,9 +1,72 @@
 import NmVerif.Proto
+import NmVerif.Containers.NDArrayObj
+import NmVerif.Arr
 namespace NmVerif.Driver.C20
-open NmVerif NmVerif.Proto
+open NmVerif NmVerif.Proto NmVerif.NDObj
 
-def handle : Handler := fun op _args =>
+def cfgOf : String → Option Cfg
+  | "dd" => some ⟨.dyn, .dyn, false⟩
+  | "ddc" => some ⟨.dyn, .dyn, true⟩
+  | "fd6" => some ⟨.dyn, .fixed 6, false⟩
+  | "fd6c" => some ⟨.dyn, .fixed 6, true⟩
+  | "df2" => some ⟨.fixedDim 2, .dyn, false⟩
+  | "df3c" => some ⟨.fixedDim 3, .dyn, true⟩
+  | "bb" => some ⟨.bounded 3, .bounded 8, false⟩
+  | "db3" => some ⟨.bounded 3, .dyn, false⟩
+  | "b8d" => some ⟨.dyn, .bounded 8, false⟩
+  | "ff" => some ⟨.fixedDim 2, .fixed 6, false⟩
+  | "hyb" => some ⟨.fixedDim 2, .bounded 8, false⟩     -- hybrid_ndarray<int,8,2>
+  | "dyn" => some ⟨.dyn, .dyn, false⟩                   -- dynamic_ndarray<int>
+  | _ => none
+
+def parseOp (s : String) : Option Op :=
+  match s.splitOn ":" with
+  | ["resize", a] => (parseNats a).map Op.resize
+  | ["fill", a] => a.toInt?.map Op.fill
+  | ["write", a, b] => do let i ← parseNats a; let v ← b.toInt?; pure (Op.write i v)
+  | _ => none
+
+def fmtState (st : St) (r : Bool) (nd : Nat) : String :=
+  s!"r={if r then 1 else 0} shape={fmtNats st.shape} strides={fmtNats (reportedStrides st)} n={st.data.length} data={fmtInts (st.data.take nd)}"
+
+def handle : Handler := fun op a =>
   match op with
+  | "ndobj" => orBad do
+      let kind ← a.get? "kind"
+      let c ← cfgOf kind
+      let legacy := kind == "hyb" || kind == "dyn"
+      let opss ← a.get? "ops"
+      let segs := opss.splitOn ";"
+      let rec go (st : St) (tracked : Nat) (l : List String) (acc : List String) : Option (List String) :=
+        match l with
+        | [] => some acc.reverse
+        | "copy" :: rest => go st tracked rest (fmtState st true st.data.length :: acc)
+        | s :: rest => do
+            let o ← parseOp s
+            let (st', r) := step c st o
+            let nd := match o with
+              | .resize _ => if r then min tracked st'.data.length else st'.data.length
+              | _ => st'.data.length
+            go st' st'.data.length rest (fmtState st' r nd :: acc)
+      let out ← go (init c) (if legacy then 0 else (init c).data.length) segs []
+      pure ("ok " ++ " | ".intercalate out)
+  | "mview" => orBad do
+      -- write through a mutable view (source data[k]=k, row-major); report the source buffer afterwards
+      let kind ← a.get? "kind"
+      let s ← a.nats "shape"
+      let i ← a.nats "idx"
+      let v ← a.int "v"
+      let n := prod s
+      let src : St := { shape := s, strides := strides s, data := (List.range n).map (fun (k : Nat) => (k : Int)) }
+      -- destination index -> source index: both reshape and flatten keep the flat position (ref: identity)
+      let srcIdx ← match kind with
+        | "ref" => some i
+        | "flatten" => (match i with | [k] => some (ndindex s k) | _ => none)
+        | "reshape" => do
+            let to ← a.nats "to"
+            if prod to ≠ n then none else some (ndindex s (computeOffset i (strides to)))
+        | _ => none
+      pure s!"ok data={fmtInts (write src srcIdx v).data}"
   | _ => none
 
 end NmVerif.Driver.C20
